@@ -149,6 +149,11 @@ def shapes(tier):
         out.append(enum_shape("wrap_%s_a" % n, "Display", "display", "{}", mixed_a, lit, args, True, quick=k in (0, 1, 2, 3)))
         out.append(enum_shape("wrap_%s_b" % n, "Display", "display", "{}", mixed_b, lit, args, True, quick=k in (0, 2, 4)))
     out.append(enum_shape("wrap_with_field", "Display", "display", "{}", tuples, "{_variant}: {_0}", "", True))
+    # variants whose own literal is text only - with brace escapes - under a wrapping format: `_variant` is what the variant prints, i.e. the
+    # literal with its escapes processed (seed C07-plain-text-own-attr-passed-raw)
+    escapes = [V("Braces", "unit", own="{{}}"), V("Set", "tuple", 1, own="set {{ .. }}"), V("Plain", "unit", own="plain"), V("Single", "tuple", 1)]
+    out.append(enum_shape("wrap_own_escapes", "Display", "display", "{}", escapes, "<{_variant}>", "", True))
+    out.append(enum_shape("wrap_own_escapes_bare", "LowerHex", "lower_hex", "{:x}", escapes, "{_variant}", "", True, quick=False))
     # generic enums: attribute-less single-field variants under a wrapping / a default-only enum-level format (seed C07-wrapping-attrless-variant-bound-dropped)
     out.append(enum_shape("wrap_brackets_generic_a", "Display", "display", "{}", mixed_a, "<{_variant}>", "", True, generic=True))
     out.append(enum_shape("wrap_brackets_generic_b", "Display", "display", "{}", mixed_b, "<{_variant}>", "", True, generic=True))
